@@ -4,7 +4,7 @@ From Coq Require Import Psatz.
 Require Import Translated.
 
 Definition is_create (m : smsg) : bool := match m with MCreateTenant _ _ _ => true | _ => false end.
-Definition is_create_mc (m : smsg) : bool := match m with MCreateTenantMC _ _ _ => true | _ => false end.
+Definition is_create_mc (m : smsg) : bool := match m with MCreateTenantMC _ _ _ _ _ => true | _ => false end.
 
 (* one iteration of the loop of CalculateGasCost *)
 (* TIE: Gas_basic Gas_create_tenant Gas_is_create_tenant *)
